@@ -7,7 +7,11 @@
 From SPV Require Export Base.Str.
 
 Inductive val := VS (s : string) | VL (l : list val) | VB (b : bool) | VN (n : nat) | VNone
-| VT (l : list val).               (* tuple (third group) *)
+| VT (l : list val)                (* tuple (third group) *)
+(* fourth group (the namespace / constructor-arguments plumbing of parsing.py) *)
+| VD (kvs : list (val * val))      (* dict: association list in insertion order, keys compared with == *)
+| VR (cls : string) (fields : list (string * val))   (* an object with attributes (argparse.Namespace, a wrapper): class name, vars() *)
+| VC (name : string).              (* a distinguished constant: argparse.SUPPRESS, dataclasses.MISSING, ... *)
 
 Inductive expr :=
 | EStr (s : string)
@@ -46,7 +50,26 @@ Inductive expr :=
 | EToList (e : expr)                      (* list(e) of a list or tuple *)
 | EIndex (e : expr) (n : nat)             (* e[n] with a literal n, on lists and tuples *)
 | EMul (a b : expr)                       (* sequence * number, number * sequence, number * number *)
-| ENestLevel (e : expr).                  (* utils.get_nesting_level(e) (its source is shape-checked by translate/Merge.py) *)
+| ENestLevel (e : expr)                   (* utils.get_nesting_level(e) (its source is shape-checked by translate/Merge.py) *)
+(* fourth group *)
+| EConst (name : string)                  (* a sentinel constant *)
+| EIsConst (e : expr) (name : string)     (* e is <sentinel> *)
+| ETuple (es : list expr)                 (* (a, b, ...) *)
+| EDict (kvs : list (expr * expr))        (* {k: v, ...} *)
+| EAttr (e : expr) (name : string)        (* e.name on an object *)
+| EGetAttr (e k : expr)                   (* getattr(e, k) *)
+| EHasAttr (e k : expr)                   (* hasattr(e, k) *)
+| EVars (e : expr)                        (* vars(e), read only: the attributes as a dict *)
+| EGetItem (d k : expr)                   (* d[k]: dict lookup, or list / tuple at a number *)
+| EDictGet (d k dflt : expr)              (* d.get(k, dflt) *)
+| ECopy (e : expr)                        (* e.copy() of a dict or list *)
+| EKeys (e : expr)                        (* d.keys() / iterating d: the keys, as a list *)
+| EValues (e : expr)                      (* d.values() *)
+| EItems (e : expr)                       (* d.items(): (key, value) tuples *)
+| EZip (a b : expr)                       (* zip(a, b): tuples, as long as the shorter *)
+| ECallTable (t a : expr)                 (* a call f(a) of an uninterpreted pure function given by its table t: a dict from
+                                             arguments to results; the result (VC "raise", cls) stands for raising cls *)
+| ESplitDest (e : expr).                  (* utils.split_dest(e) = e.rpartition(".")[0], [2] (source shape-checked by PipelineSrc.py) *)
 
 Inductive stmt :=
 | SAssign (x : string) (e : expr)
@@ -57,7 +80,20 @@ Inductive stmt :=
 | SReturn (e : expr)
 | SUnpack3 (x ms y : string) (e : expr)   (* x, *ms, y = e *)
 | SAssert (e : expr)
-| SRaise (cls : string).                  (* raise cls(...): the message is not modelled *)
+| SRaise (cls : string)                   (* raise cls(...): the message is not modelled *)
+(* fourth group *)
+| SContinue
+| SUnpack (xs : list string) (e : expr)                        (* x1, ..., xn = e *)
+| SForC (x : string) (iter : expr) (body : list stmt)           (* a for loop whose body may `continue` *)
+| SFor2 (x y : string) (iter : expr) (body : list stmt)         (* for x, y in iter (pairs); the body may `continue` *)
+| SSetPath (x : string) (path : list (bool * expr)) (e : expr)  (* x[k1]..[kn] = e / x.a = e / setattr: (true, k) is an attribute step *)
+| SDelItem (x : string) (k : expr)                              (* del x[k] *)
+| SDelAttr (x : string) (k : expr)                              (* delattr(x, k) *)
+| SPop (t x : string) (k : expr) (dflt : option expr)           (* t = x.pop(k[, dflt]) on the dict x *)
+| SPopAttr (t x : string) (k : expr) (dflt : option expr)       (* t = vars(x).pop(k[, dflt]): the live view of the object x *)
+| SCall (body : list stmt) (ins : list (string * expr)) (outs : list (string * string)).
+   (* a call of a dumped procedure: its body runs in the environment `ins` (parameter := argument); its `return` ends the call
+      only; afterwards each (parameter, caller variable) of `outs` - the arguments the procedure mutates - is copied back *)
 Definition block := list stmt.
 
 Definition env := list (string * val).
@@ -77,6 +113,9 @@ Definition truthy (v : val) : bool :=
   | VN n => negb (Nat.eqb n 0)
   | VNone => false
   | VT l => negb (Nat.eqb (List.length l) 0)
+  | VD l => negb (Nat.eqb (List.length l) 0)
+  | VR _ _ => true
+  | VC _ => true
   end.
 
 Fixpoint val_eqb (a b : val) : bool :=
@@ -95,6 +134,25 @@ Fixpoint val_eqb (a b : val) : bool :=
                                      | [], [] => true
                                      | x :: r1, y :: r2 => val_eqb x y && eq r1 r2
                                      | _, _ => false end) xs ys
+  | VC x, VC y => String.eqb x y
+  | VD xs, VD ys =>          (* dict equality does not depend on the insertion order (keys are unique) *)
+      Nat.eqb (List.length xs) (List.length ys)
+      && (fix all l := match l with
+                       | [] => true
+                       | (k, v) :: t => (fix find m := match m with
+                                                       | [] => false
+                                                       | (k', v') :: u => if val_eqb k k' then val_eqb v v' else find u
+                                                       end) ys && all t
+                       end) xs
+  | VR c xs, VR d ys =>
+      String.eqb c d && Nat.eqb (List.length xs) (List.length ys)
+      && (fix all l := match l with
+                       | [] => true
+                       | (k, v) :: t => (fix find m := match m with
+                                                       | [] => false
+                                                       | (k', v') :: u => if String.eqb k k' then val_eqb v v' else find u
+                                                       end) ys && all t
+                       end) xs
   | _, _ => false
   end.
 
@@ -112,7 +170,8 @@ Fixpoint strs_of (l : list val) : option (list string) :=
   end.
 
 Definition type_name (v : val) : string :=
-  match v with VS _ => "str" | VL _ => "list" | VB _ => "bool" | VN _ => "int" | VNone => "NoneType" | VT _ => "tuple" end.
+  match v with VS _ => "str" | VL _ => "list" | VB _ => "bool" | VN _ => "int" | VNone => "NoneType" | VT _ => "tuple"
+  | VD _ => "dict" | VR c _ => c | VC _ => "sentinel" end.
 (* python `l * n` *)
 Fixpoint rep_list {A} (l : list A) (n : nat) : list A :=
   match n with O => [] | S k => (l ++ rep_list l k)%list end.
@@ -123,6 +182,38 @@ Fixpoint nest_level (v : val) : nat :=
   match v with
   | VL l | VT l => S (fold_right (fun x acc => Nat.max (nest_level x) acc) 0 l)
   | _ => 0
+  end.
+
+(* ---------- dicts and objects ---------- *)
+Fixpoint dget (k : val) (d : list (val * val)) : option val :=
+  match d with [] => None | (k', v) :: t => if val_eqb k' k then Some v else dget k t end.
+Fixpoint dset (k v : val) (d : list (val * val)) : list (val * val) :=
+  match d with
+  | [] => [(k, v)]
+  | (k', w) :: t => if val_eqb k' k then (k', v) :: t else (k', w) :: dset k v t
+  end.
+Fixpoint ddel (k : val) (d : list (val * val)) : list (val * val) :=
+  match d with [] => [] | (k', w) :: t => if val_eqb k' k then t else (k', w) :: ddel k t end.
+Fixpoint rget (k : string) (d : list (string * val)) : option val :=
+  match d with [] => None | (k', v) :: t => if String.eqb k' k then Some v else rget k t end.
+Fixpoint rset (k : string) (v : val) (d : list (string * val)) : list (string * val) :=
+  match d with
+  | [] => [(k, v)]
+  | (k', w) :: t => if String.eqb k' k then (k', v) :: t else (k', w) :: rset k v t
+  end.
+Fixpoint rdel (k : string) (d : list (string * val)) : list (string * val) :=
+  match d with [] => [] | (k', w) :: t => if String.eqb k' k then t else (k', w) :: rdel k t end.
+
+Definition CONT : val := VC "<continue>".
+Definition is_cont (v : val) : bool := match v with VC n => String.eqb n "<continue>" | _ => false end.
+Definition pair_of (a b : val) : val := VT [a; b].
+Definition seq_items (v : val) : option (list val) := match v with VL l => Some l | VT l => Some l | _ => None end.
+
+(* str.rpartition(".") without the separator *)
+Definition split_dest (d : string) : string * string :=
+  match rev (split_dot d) with
+  | a :: rp => (join_dot (rev rp), a)
+  | [] => ("", d)
   end.
 
 Definition suffixb (p s : string) : bool := prefixb (srev p) (srev s).
@@ -158,6 +249,170 @@ Fixpoint iter_list {S} (step : val -> S -> res (S * option val)) (l : list val) 
               end
   end.
 
+(* for loops whose body may `continue`: the statement SContinue returns the marker CONT, which ends the iteration only *)
+Fixpoint iter_list_c {S} (step : val -> S -> res (S * option val)) (l : list val) (r : S) : res (S * option val) :=
+  match l with
+  | [] => Ok (r, None)
+  | v :: t => match step v r with
+              | Err z => Err z
+              | Ok (r', Some w) => if is_cont w then iter_list_c step t r' else Ok (r', Some w)
+              | Ok (r', None) => iter_list_c step t r'
+              end
+  end.
+
+(* x[k1]..[kn] = new / x.a[k] = new ...: functional update along a path; (true, VS a) is the attribute a *)
+Fixpoint upd_path (v0 : val) (path : list (bool * val)) (new : val) : res val :=
+  match path with
+  | [] => Ok new
+  | (false, k) :: rest =>
+      match v0 with
+      | VD d => match rest with
+                | [] => Ok (VD (dset k new d))
+                | _ => match dget k d with
+                       | Some w => match upd_path w rest new with Ok w' => Ok (VD (dset k w' d)) | Err z => Err z end
+                       | None => Err (Raise "KeyError")
+                       end
+                end
+      | _ => rerr
+      end
+  | (true, VS a) :: rest =>
+      match v0 with
+      | VR c f => match rest with
+                  | [] => Ok (VR c (rset a new f))
+                  | _ => match rget a f with
+                         | Some w => match upd_path w rest new with Ok w' => Ok (VR c (rset a w' f)) | Err z => Err z end
+                         | None => Err (Raise "AttributeError")
+                         end
+                  end
+      | _ => rerr
+      end
+  | (true, _) :: _ => rerr
+  end.
+
+Definition is_some {A} (o : option A) : bool := match o with Some _ => true | None => false end.
+
+(* ---------- the fourth group's operations on evaluated operands (kept out of `eval` / `exec` so that their bodies stay small) ---------- *)
+Definition bind2 (a b : res val) (f : val -> val -> res val) : res val :=
+  match a, b with Ok x, Ok y => f x y | Err z, _ => Err z | _, Err z => Err z end.
+Definition op_isconst (n : string) (a : res val) : res val :=
+  match a with Ok (VC m) => Ok (VB (String.eqb m n)) | Ok _ => Ok (VB false) | Err z => Err z end.
+Definition op_attr (n : string) (a : res val) : res val :=
+  match a with
+  | Ok (VR _ f) => match rget n f with Some v => Ok v | None => Err (Raise "AttributeError") end
+  | Ok _ => rerr | Err z => Err z end.
+Definition op_getattr (a k : res val) : res val :=
+  bind2 a k (fun x y => match x, y with
+                        | VR _ f, VS n => match rget n f with Some v => Ok v | None => Err (Raise "AttributeError") end
+                        | _, _ => rerr end).
+Definition op_hasattr (a k : res val) : res val :=
+  bind2 a k (fun x y => match x, y with VR _ f, VS n => Ok (VB (is_some (rget n f))) | _, _ => rerr end).
+Definition op_vars (a : res val) : res val :=
+  match a with Ok (VR _ f) => Ok (VD (map (fun p => (VS (fst p), snd p)) f)) | Ok _ => rerr | Err z => Err z end.
+Definition op_getitem (d k : res val) : res val :=
+  bind2 d k (fun x kv => match x, kv with
+                         | VD l, _ => match dget kv l with Some v => Ok v | None => Err (Raise "KeyError") end
+                         | VL l, VN n | VT l, VN n => match nth_error l n with Some v => Ok v | None => Err (Raise "IndexError") end
+                         | _, _ => rerr end).
+Definition op_dictget (d k dflt : res val) : res val :=
+  match d, k, dflt with
+  | Ok (VD l), Ok kv, Ok dv => match dget kv l with Some v => Ok v | None => Ok dv end
+  | Ok _, Ok _, Ok _ => rerr
+  | Err z, _, _ => Err z | _, Err z, _ => Err z | _, _, Err z => Err z end.
+Definition op_copy (a : res val) : res val :=
+  match a with Ok (VD l) => Ok (VD l) | Ok (VL l) => Ok (VL l) | Ok _ => rerr | Err z => Err z end.
+Definition op_keys (a : res val) : res val := match a with Ok (VD l) => Ok (VL (map fst l)) | Ok _ => rerr | Err z => Err z end.
+Definition op_values (a : res val) : res val := match a with Ok (VD l) => Ok (VL (map snd l)) | Ok _ => rerr | Err z => Err z end.
+Definition op_items (a : res val) : res val :=
+  match a with Ok (VD l) => Ok (VL (map (fun p => pair_of (fst p) (snd p)) l)) | Ok _ => rerr | Err z => Err z end.
+Definition op_zip (a b : res val) : res val :=
+  bind2 a b (fun x y => match seq_items x, seq_items y with
+                        | Some l1, Some l2 => Ok (VL (map (fun p => pair_of (fst p) (snd p)) (combine l1 l2)))
+                        | _, _ => rerr end).
+Definition op_calltable (t a : res val) : res val :=
+  bind2 t a (fun x v => match x with
+                        | VD l => match dget v l with
+                                  | Some (VT [VC "raise"; VS cls]) => Err (Raise cls)
+                                  | Some w => Ok w
+                                  | None => Err (Raise "MiniPyUnknownCall")
+                                  end
+                        | _ => rerr end).
+Definition op_splitdest (a : res val) : res val :=
+  match a with
+  | Ok (VS s) => Ok (pair_of (VS (fst (split_dest s))) (VS (snd (split_dest s))))
+  | Ok _ => rerr | Err z => Err z end.
+
+Definition st_unpack (r : env) (xs : list string) (e : res val) : res (env * option val) :=
+  match e with
+  | Ok v => match seq_items v with
+            | Some l => if Nat.eqb (List.length l) (List.length xs)
+                        then Ok (fold_left (fun acc p => assign (fst p) (snd p) acc) (combine xs l) r, None)
+                        else Err (Raise "ValueError")
+            | None => rerr end
+  | Err z => Err z
+  end.
+Definition st_setpath (r : env) (x : string) (e : res val) (path : res (list (bool * val))) : res (env * option val) :=
+  match e with
+  | Err z => Err z
+  | Ok v => match path with
+            | Err z => Err z
+            | Ok pv => match lookup x r with
+                       | None => Err (Raise "NameError")
+                       | Some v0 => match upd_path v0 pv v with Ok v1 => Ok (assign x v1 r, None) | Err z => Err z end
+                       end
+            end
+  end.
+Definition st_delitem (r : env) (x : string) (k : res val) : res (env * option val) :=
+  match k, lookup x r with
+  | Err z, _ => Err z
+  | Ok kv, Some (VD d) => if is_some (dget kv d) then Ok (assign x (VD (ddel kv d)) r, None) else Err (Raise "KeyError")
+  | Ok _, Some _ => rerr
+  | Ok _, None => Err (Raise "NameError")
+  end.
+Definition st_delattr (r : env) (x : string) (k : res val) : res (env * option val) :=
+  match k, lookup x r with
+  | Err z, _ => Err z
+  | Ok (VS n), Some (VR c f) => if is_some (rget n f) then Ok (assign x (VR c (rdel n f)) r, None) else Err (Raise "AttributeError")
+  | Ok _, Some _ => rerr
+  | Ok _, None => Err (Raise "NameError")
+  end.
+Definition st_pop (r : env) (t x : string) (k : res val) (dflt : res (option val)) : res (env * option val) :=
+  match k, dflt, lookup x r with
+  | Err z, _, _ => Err z
+  | _, Err z, _ => Err z
+  | Ok kv, Ok dv, Some (VD d) =>
+      match dget kv d, dv with
+      | Some v, _ => Ok (assign t v (assign x (VD (ddel kv d)) r), None)
+      | None, Some v => Ok (assign t v r, None)
+      | None, None => Err (Raise "KeyError")
+      end
+  | Ok _, Ok _, Some _ => rerr
+  | Ok _, Ok _, None => Err (Raise "NameError")
+  end.
+(* vars(x).pop(k[, d]): a key that is not a string is simply absent *)
+Definition st_popattr (r : env) (t x : string) (k : res val) (dflt : res (option val)) : res (env * option val) :=
+  match k, dflt, lookup x r with
+  | Err z, _, _ => Err z
+  | _, Err z, _ => Err z
+  | Ok kv, Ok dv, Some (VR c f) =>
+      match (match kv with VS n => rget n f | _ => None end), dv with
+      | Some v, _ => Ok (assign t v (assign x (VR c (match kv with VS n => rdel n f | _ => f end)) r), None)
+      | None, Some v => Ok (assign t v r, None)
+      | None, None => Err (Raise "KeyError")
+      end
+  | Ok _, Ok _, Some _ => rerr
+  | Ok _, Ok _, None => Err (Raise "NameError")
+  end.
+Fixpoint copy_back (r1 : env) (l : list (string * string)) (acc : env) : res (env * option val) :=
+  match l with
+  | [] => Ok (acc, None)
+  | (p, x) :: t => match lookup p r1 with Some v => copy_back r1 t (assign x v acc) | None => Err (Raise "NameError") end
+  end.
+Definition pair_step (step : val -> val -> env -> res (env * option val)) : val -> env -> res (env * option val) :=
+  fun v r => match seq_items v with
+             | Some [a; b] => step a b r
+             | Some _ => Err (Raise "ValueError")
+             | None => rerr end.
+
 Fixpoint eval (r : env) (e : expr) {struct e} : res val :=
   let evals := fix evals (es : list expr) : res (list val) :=
     match es with
@@ -189,12 +444,15 @@ Fixpoint eval (r : env) (e : expr) {struct e} : res val :=
               | Ok (VS s) => Ok (VN (String.length s))
               | Ok (VL l) => Ok (VN (List.length l))
               | Ok (VT l) => Ok (VN (List.length l))
+              | Ok (VD l) => Ok (VN (List.length l))
               | Ok _ => rerr | Err x => Err x end
   | EEq a b => match eval r a, eval r b with Ok x, Ok y => Ok (VB (val_eqb x y)) | Err x, _ => Err x | _, Err x => Err x end
   | EIn a b => match eval r a, eval r b with
                | Ok (VS x), Ok (VS s) => Ok (VB (match x with String c EmptyString => has_char c s | _ => contains x s end))
                | Ok x, Ok (VL l) => Ok (VB (existsb (val_eqb x) l))
                | Ok x, Ok (VT l) => Ok (VB (existsb (val_eqb x) l))
+               | Ok x, Ok (VD d) => Ok (VB (is_some (dget x d)))
+               | Ok x, Ok (VR _ f) => Ok (VB (match x with VS k => is_some (rget k f) | _ => false end))   (* argparse.Namespace.__contains__ *)
                | Ok _, Ok _ => rerr | Err x, _ => Err x | _, Err x => Err x end
   | ENot a => match eval r a with Ok v => Ok (VB (negb (truthy v))) | Err x => Err x end
   | ECond c a b => match eval r c with Ok v => if truthy v then eval r a else eval r b | Err x => Err x end
@@ -254,6 +512,31 @@ Fixpoint eval (r : env) (e : expr) {struct e} : res val :=
                 | Ok (VN n), Ok (VS s) => Ok (VS (rep_str s n))
                 | Ok _, Ok _ => rerr | Err z, _ => Err z | _, Err z => Err z end
   | ENestLevel a => match eval r a with Ok v => Ok (VN (nest_level v)) | Err z => Err z end
+  | EConst n => Ok (VC n)
+  | EIsConst a n => op_isconst n (eval r a)
+  | ETuple es => match evals es with Ok vs => Ok (VT vs) | Err x => Err x end
+  | EDict kvs =>
+      (fix evalkvs (l : list (expr * expr)) (acc : list (val * val)) : res val :=
+         match l with
+         | [] => Ok (VD acc)
+         | (k, v) :: t => match eval r k with
+                          | Err z => Err z
+                          | Ok kv => match eval r v with Err z => Err z | Ok vv => evalkvs t (dset kv vv acc) end
+                          end
+         end) kvs []
+  | EAttr a n => op_attr n (eval r a)
+  | EGetAttr a k => op_getattr (eval r a) (eval r k)
+  | EHasAttr a k => op_hasattr (eval r a) (eval r k)
+  | EVars a => op_vars (eval r a)
+  | EGetItem d k => op_getitem (eval r d) (eval r k)
+  | EDictGet d k dflt => op_dictget (eval r d) (eval r k) (eval r dflt)
+  | ECopy a => op_copy (eval r a)
+  | EKeys a => op_keys (eval r a)
+  | EValues a => op_values (eval r a)
+  | EItems a => op_items (eval r a)
+  | EZip a b => op_zip (eval r a) (eval r b)
+  | ECallTable t a => op_calltable (eval r t) (eval r a)
+  | ESplitDest a => op_splitdest (eval r a)
   end.
 
 (* statements: the result is the new environment and, when a `return` was executed, the returned value *)
@@ -301,6 +584,47 @@ Fixpoint exec (r : env) (s : stmt) {struct s} : res (env * option val) :=
       end
   | SAssert e => match eval r e with Ok v => if truthy v then Ok (r, None) else Err (Raise "AssertionError") | Err z => Err z end
   | SRaise cls => Err (Raise cls)
+  | SContinue => Ok (r, Some CONT)
+  | SUnpack xs e => st_unpack r xs (eval r e)
+  | SForC x iter body =>
+      match eval r iter with
+      | Ok (VL l) => iter_list_c (fun v r => exec_block (assign x v r) body) l r
+      | Ok _ => rerr
+      | Err z => Err z
+      end
+  | SFor2 x y iter body =>
+      match eval r iter with
+      | Ok it => match seq_items it with
+                 | Some l => iter_list_c (pair_step (fun a b r => exec_block (assign y b (assign x a r)) body)) l r
+                 | None => rerr end
+      | Err z => Err z
+      end
+  | SSetPath x path e =>
+      st_setpath r x (eval r e)
+        ((fix evpath (p : list (bool * expr)) : res (list (bool * val)) :=
+            match p with
+            | [] => Ok []
+            | (b, k) :: t => match eval r k, evpath t with
+                             | Ok kv, Ok rest => Ok ((b, kv) :: rest) | Err z, _ => Err z | _, Err z => Err z end
+            end) path)
+  | SDelItem x k => st_delitem r x (eval r k)
+  | SDelAttr x k => st_delattr r x (eval r k)
+  | SPop t x k dflt =>
+      st_pop r t x (eval r k) (match dflt with Some d => match eval r d with Ok v => Ok (Some v) | Err z => Err z end | None => Ok None end)
+  | SPopAttr t x k dflt =>
+      st_popattr r t x (eval r k) (match dflt with Some d => match eval r d with Ok v => Ok (Some v) | Err z => Err z end | None => Ok None end)
+  | SCall body ins outs =>
+      match (fix bind (l : list (string * expr)) (acc : env) : res env :=
+               match l with
+               | [] => Ok acc
+               | (p, a) :: t => match eval r a with Ok v => bind t (assign p v acc) | Err z => Err z end
+               end) ins [] with
+      | Err z => Err z
+      | Ok r0 => match exec_block r0 body with
+                 | Err z => Err z
+                 | Ok (r1, _) => copy_back r1 outs r
+                 end
+      end
   end.
 
 Fixpoint exec_block (r : env) (ss : list stmt) : res (env * option val) :=
